@@ -32,7 +32,12 @@ def content(cls, rng, large_max=20000):
         n = rng.choice([1, 3, 24, 25, 100, 1000])
         return bytes(rng.getrandbits(8) for _ in range(n))
     if cls == "utf8":
-        return "".join(rng.choice(UTF8_SAMPLES + ["x", "\n"]) for _ in range(rng.randint(1, 12))).encode("utf8")
+        out = "".join(rng.choice(UTF8_SAMPLES + ["x", "\n"]) for _ in range(rng.randint(1, 12))).encode("utf8")
+        if len(out) % 5 == 0:
+            out = b"\xef\xbb\xbf" + out      # output that begins with a byte-order mark (Windows tools print one): U+FEFF is a character like any other
+        elif len(out) % 7 == 0:
+            out = out + b"\xef\xbb\xbf" + out
+        return out
     if cls == "invalid":
         parts = [rng.choice(INVALID_UTF8 + [b"ok", "€".encode()]) for _ in range(rng.randint(1, 6))]
         return b"".join(parts)
